@@ -7,8 +7,8 @@ from model_lang import Model, compare, dump_to_plain
 from runner import Failure, Outcome, h64
 from schema import (HAND, schemas, F_COMMENTS, F_IGNORE_UNKNOWN, F_NOCASE, F_KEYSTRVAL)
 
-UNK = ["unk_q7", "zz_unknown", "Nope9", "zz_future|knob", "zz_a|zz_b|c", "\"zz_k=v\"", "'zz q'", "zz_x|"]
-VALS = ["v", "\"a b\"", "'q'", "12", "\"\"", "${HOME}", "\"x\\ny\""]
+UNK = ["unk_q7", "zz_unknown", "Nope9", "zz_future|knob", "zz_a|zz_b|c", "\"zz_k=v\"", "'zz q'", "zz_x|", "\"\"", "''"]
+VALS = ["v", "\"a b\"", "'q'", "12", "\"\"", "${HOME}", "\"x\\ny\"", "\"}\"", "\")\"", "\"{\"", "\"(\"", "\",\"", "\"=\"", "'} x'", "\") y\"", "\"+=\""]
 
 
 @st.composite
